@@ -74,7 +74,8 @@ StringDictionaryPFC::StringDictionaryPFC(IteratorDictString *it,
 
     // Checking the available space in textStrings and
     // realloc if required
-    while ((bytesStrings + (2 * lenCurrent)) > reservedStrings)
+    // (a string takes up to 5 bytes of prefix length, its suffix and a '\0')
+    while ((bytesStrings + (2 * lenCurrent) + 6) > reservedStrings)
       reservedStrings = Reallocate(&textStrings, reservedStrings);
 
     if ((elements % bucketsize) == 0) {
